@@ -462,3 +462,8 @@ func init() {
 	addMutant(Mutant{Name: "c01-map-entries-single-stage-sort", Property: "C01", File: "ygot/render.go",
 		Old: "\t\treturn strings.Compare(fmt.Sprintf(\"%#v\", a.key.Interface()), fmt.Sprintf(\"%#v\", b.key.Interface()))\n", New: "\t\treturn 0\n", Expect: "mapJSON:comparator"})
 }
+
+func init() {
+	addMutant(Mutant{Name: "c30-leafref-lookup-with-wildcards", Property: "C30", File: "ytypes/leafref.go",
+		Old: "path, &GetPartialKeyMatch{}, &GetTolerateNil{})", New: "path, &GetPartialKeyMatch{}, &GetHandleWildcards{}, &GetTolerateNil{})", Expect: "no-wildcards"})
+}
